@@ -8,6 +8,9 @@ package main
 //   tree  J c | V a | N id | W id | H id | FR t | FL c t b | FC c t b1 b2 | A x c b | O h t | S h t     (see Model/C11.lean)
 //   ops   b (nothing) | e (Eval) | s (Subscribe with OnNext) | z (Subscribe without OnNext) | y (Cor.YieldFromIO)
 //         o<h> (ObserveOn) | u<h> (SubscribeOn)   h: 0 = nil, 1/2 = unbuffered handlers, 3 = handler with a buffered channel
+//         r<h> ObserveOn(h3), Subscribe while h3's goroutine is busy, then SubscribeOn(h) before the effect has run
+//         d<c> the value becomes m.FlatMap(k_c) (k_c logs K<c>(x), returns Just((x+1)%1000)); a sibling m.FlatMap(k') is derived from
+//              the same m right afterwards and dropped (branching compositions: a shared prefix must not be disturbed)
 // Observation: per op the events logged since the previous op ("-" if none), " | "-separated; e and y prefix "v=<value> ".
 //   events  E<id>@<g>  user effect     K<c>(<x>)@<g>  continuation invoked     D(<x>)@<g>  OnNext delivery
 //   <g>     m = the goroutine running the case, h1/h2/h3 = the handler's run goroutine, ? = any other goroutine
@@ -175,20 +178,23 @@ type c11API[T any] struct {
 	onNext func(func(T)) fpgo.Subscription[T]
 }
 
-func c11Build[T any](e *c11Env, api *c11API[T], t *c11Tree, v int) *fpgo.MonadIODef[T] {
-	kont := func(t *c11Tree) func(T) *fpgo.MonadIODef[T] {
-		return func(x T) *fpgo.MonadIODef[T] {
-			xv := api.to(x)
-			e.emit("K" + strconv.Itoa(t.c) + "(" + strconv.Itoa(xv) + ")")
-			if t.kind == "FC" {
-				if xv%2 == 0 {
-					return c11Build(e, api, t.kids[1], xv)
-				}
-				return c11Build(e, api, t.kids[2], xv)
+// the logging continuation of an FL / FC / A node
+func c11Kont[T any](e *c11Env, api *c11API[T], t *c11Tree) func(T) *fpgo.MonadIODef[T] {
+	return func(x T) *fpgo.MonadIODef[T] {
+		xv := api.to(x)
+		e.emit("K" + strconv.Itoa(t.c) + "(" + strconv.Itoa(xv) + ")")
+		if t.kind == "FC" {
+			if xv%2 == 0 {
+				return c11Build(e, api, t.kids[1], xv)
 			}
-			return c11Build(e, api, t.kids[len(t.kids)-1], xv)
+			return c11Build(e, api, t.kids[2], xv)
 		}
+		return c11Build(e, api, t.kids[len(t.kids)-1], xv)
 	}
+}
+
+func c11Build[T any](e *c11Env, api *c11API[T], t *c11Tree, v int) *fpgo.MonadIODef[T] {
+	kont := func(t *c11Tree) func(T) *fpgo.MonadIODef[T] { return c11Kont(e, api, t) }
 	switch t.kind {
 	case "J":
 		return api.just(api.from(t.a))
@@ -304,6 +310,29 @@ func c11RunCase[T any](api *c11API[T], t *c11Tree, ops []string) string {
 			case op == "y":
 				v := api.to(api.yield(m))
 				return "v=" + strconv.Itoa(v) + " " + flush()
+			case len(op) == 2 && op[0] == 'r' && op[1] >= '0' && op[1] <= '3':
+				// re-configuration in flight: the effect is to run on h3 (buffered), whose goroutine is kept busy; Subscribe
+				// leaves the effect waiting in h3's buffer; the value is given another SubscribeOn handler; then h3 is released.
+				// The subscription made before must still deliver on the handler that was set when Subscribe was called.
+				m = m.ObserveOn(e.h[3])
+				gate, started := make(chan struct{}), make(chan struct{})
+				e.h[3].Post(func() { close(started); <-gate })
+				<-started
+				m.Subscribe(api.onNext(func(x T) { e.emit("D(" + strconv.Itoa(api.to(x)) + ")") }))
+				m = m.SubscribeOn(e.h[op[1]-'0'])
+				close(gate)
+				return flush()
+			case len(op) >= 2 && op[0] == 'd':
+				// a further FlatMap on the composed value, and a SIBLING derived from the same value right afterwards that is
+				// never evaluated: compositions are values, deriving one more from a shared prefix must not disturb the first
+				c, err := strconv.Atoi(op[1:])
+				if err != nil || c < 0 {
+					return "bad-op"
+				}
+				a := m.FlatMap(c11Kont(e, api, &c11Tree{kind: "FL", c: c, kids: []*c11Tree{nil, c11Leaf("V", 1)}}))
+				_ = m.FlatMap(c11Kont(e, api, &c11Tree{kind: "FL", c: c + 500, kids: []*c11Tree{nil, c11Leaf("W", 7)}}))
+				m = a
+				return flush()
 			case len(op) == 2 && op[0] == 'o' && op[1] >= '0' && op[1] <= '3':
 				m = m.ObserveOn(e.h[op[1]-'0'])
 				return flush()
@@ -507,6 +536,10 @@ func c11Safe(t *c11Tree, script string) bool {
 			ob = int(op[1] - '0')
 		case op[0] == 'u':
 			sub = int(op[1] - '0')
+		case op[0] == 'r':
+			ob, sub = 3, int(op[1]-'0')
+		case op[0] == 'd':
+			ob, sub = 0, 0
 		case op == "y":
 			sub = 0
 		case op == "s":
@@ -603,6 +636,29 @@ func c11Gen(tier string, rng *rand.Rand, emit func(string)) map[string]interface
 			}
 		}
 	}
+	// branching: 1..9 further FlatMaps, each with a sibling derived from the same prefix, then evaluations; whether a FlatMap
+	// result inherits handlers is not fixed by the property, so both are set explicitly before every Subscribe
+	branching := 0
+	branchScripts := []string{"d1 ; e", "d1 ; d2 ; d3 ; d4 ; e ; e", "d1 ; d2 ; d3 ; d4 ; d5 ; d6 ; d7 ; d8 ; d9 ; e",
+		"d1 ; d2 ; d3 ; o1 ; u2 ; s ; d4 ; d5 ; o0 ; u0 ; s ; e", "d3 ; d2 ; e ; d1 ; d1 ; e ; d4 ; d5 ; d6 ; o0 ; u2 ; s"}
+	for n := 1; n <= 3; n++ {
+		for _, t := range c11Trees(n, memo) {
+			for _, sc := range branchScripts {
+				put(t, sc)
+				branching++
+			}
+		}
+	}
+	// re-configuration while a subscription is in flight (both handler fields pinned first)
+	raceScripts := []string{"o0 ; u2 ; r0 ; s", "o1 ; u2 ; r1 ; e", "o0 ; u0 ; r2 ; o0 ; s", "o2 ; u1 ; r3 ; r0 ; r1", "o0 ; u3 ; r2 ; y"}
+	for n := 1; n <= 3; n++ {
+		for _, t := range c11Trees(n, memo) {
+			for _, sc := range raceScripts {
+				put(t, sc)
+				branching++
+			}
+		}
+	}
 	// random
 	depthHist := map[string]int{}
 	for i := 0; i < nRandom; i++ {
@@ -614,9 +670,11 @@ func c11Gen(tier string, rng *rand.Rand, emit func(string)) map[string]interface
 	return map[string]interface{}{
 		"exhaustive": false, "directed_law_cases": directed,
 		"exhaustive_scope": fmt.Sprintf("all trees with <= %d nodes over {J3,V1,N1,N2,W3,H4,FR,FL,FC,A,O1,S2} x %d scripts", maxNodes, len(c11Scripts)),
-		"exhaustive_cases": exhaustive, "random_cases": nRandom, "random_max_depth": depth, "random_depth_hist": depthHist,
+		"exhaustive_cases": exhaustive, "branching_cases": branching, "random_cases": nRandom, "random_max_depth": depth, "random_depth_hist": depthHist,
 		"emitted": count,
 	}
 }
 
-func init() { register("C11", &Prop{Gen: c11Gen, Run: c11Run, CaseTimeout: 5 * time.Second}) }
+// 10 s: a case needs well under 1 ms of CPU (about 40 ms with the harness squeezed to 1 % of a core); the deadline only has to tell a
+// deadlock (Post to the own unbuffered handler) from a slow machine
+func init() { register("C11", &Prop{Gen: c11Gen, Run: c11Run, CaseTimeout: 10 * time.Second}) }
